@@ -409,7 +409,8 @@ def canary_trim_keeps_rows(K, cls, nv):
 # ------------------------------------------------------------------------------ callee contract of trim (modular use)
 TRIM_FACTS = ["trim.empty: no start, no rows", "trim.empty: every row was all-missing",
               "trim.kept block lies inside the old rows", "trim.new data is the kept block", "trim.rows outside the kept block were all-missing",
-              "trim.first and last kept rows have an observation", "trim.start moved by the number of leading rows"]
+              "trim.first and last kept rows have an observation", "trim.start moved by the number of leading rows",
+              "trim.frame: description, metadata and data type are left as they were"]
 
 
 @contract("C10", targets=[P + "Series.trim"], instances=[(c, n) for c in CLS for n in NV])
@@ -419,10 +420,13 @@ def trim_spec(K, cls, nv):
     rows = K.int("s_rows", 0, None, sample=(0, 6))
     start = K.int("s_start", lo, hi)
     data = K.array("s_data", (rows, nv))
-    s = K.obj(Series, start=K.obj(cls, serial=start), data=data, data_type=np.float64, metadata={}, __description__="")
+    meta = {"source": "somewhere"}
+    s = K.obj(Series, start=K.obj(cls, serial=start), data=data, data_type=np.float64, metadata=meta, __description__="a description")
     old = K.snapshot(data)
     K.method(s, "trim")
     ns, nd = state(K, s)
+    K.ensure(TRIM_FACTS[7], K.attr(s, "__description__") == "a description" and K.attr(s, "metadata") is meta and K.attr(s, "metadata") == {"source": "somewhere"}
+             and K.attr(s, "data_type") is np.float64)
     nrows = K.shape(nd)[0]
     i = K.int("i", 0, None, sample=(0, 6))
     c = K.int("c", 0, nv - 1)
@@ -494,7 +498,9 @@ def trim_summary(I, args, kwargs, node):
         s0 = zint(start.attrs["serial"]) if isinstance(start, Obj) else None
         if s0 is not None:
             ctx.universals.append(lambda key, s0=s0: _z3.Implies(_z3.And(key - s0 >= 0, key - s0 < rows), _z3.Not(has_obs(key - s0))))
-        I.call(I.getattr(self, "reset", node), [], {}, node)
+        # the empty state of the proved facts: no start, no rows, same number of variants; nothing else is touched
+        self.attrs["start"] = None
+        self.attrs["data"] = I.lib.numpy.np_empty(I, [(0, nv)], {}, node)
     return self
 
 
@@ -1218,8 +1224,10 @@ def extrapolation_follows_the_autoregression_period_by_period(K, order, nv, log)
         K.assume(K.And(*[K.cell_val(K.cell(data, i, c)) > 0 for i in range(rows) for c in range(nv)]))
     x = K.obj(Series, start=K.obj(cls, serial=start), data=data, data_type=np.float64, metadata={}, __description__="")
     old = K.snapshot(data)
-    rho = [K.real(f"rho{j}") for j in range(order)]
-    c0 = K.real("c")
+    # sample=: narrows only the random draws of the native cross-check (floats overflow in exp() for explosive coefficients;
+    # floats-as-reals is an assumption of the proof), not the precondition - the obligations are for all real coefficients
+    rho = [K.real(f"rho{j}", sample=(-0.9, 0.9)) for j in range(order)]
+    c0 = K.real("c", sample=(-0.5, 0.5))
     first = start + rows                         # the span starts right after the last observation
     span = K.call(D.Span, K.obj(cls, serial=first), K.obj(cls, serial=first + T - 1))
     r = K.call(XT.extrapolate, x, tuple(rho), span, intercept=c0, log=log)
@@ -1245,3 +1253,17 @@ def extrapolation_follows_the_autoregression_period_by_period(K, order, nv, log)
     xs2, xd2 = state(K, x)
     K.ensure("the input is left alone", K.And(xs2 == start, K.shape(xd2)[0] == rows, *[K.cell_eq(K.cell(xd2, i, c), K.cell(old, i, c)) for i in range(rows) for c in range(nv)]))
     K.ensure("the result has its own memory", (r is not x) and (not K.same_buffer(rd, xd2)))
+
+
+@contract("C10", targets=["irispie.series._moving:Inlay._get_default_moving_window", P + "Series.frequency"],
+          instances=[(D.YearlyPeriod, -1), (D.QuarterlyPeriod, -4), (D.MonthlyPeriod, -12), (D.DailyPeriod, -365), (D.IntegerPeriod, -4), (None, -4)])
+def default_moving_window_is_the_documented_one(K, cls, window):
+    """The window used when none is given (table in the moving-window documentation): one year of periods for yearly,
+    quarterly, monthly and daily series (-1, -4, -12, -365), and -4 for integer-dated and empty series."""
+    if cls is None:
+        x, _, _ = mk_series(K, "x", CLS[0], 1, empty=True)
+    elif cls is D.DailyPeriod:
+        x = K.obj(Series, start=K.obj(cls, serial=K.int("x_start", 730000, 730400)), data=K.array("x_data", (3, 1)), data_type=np.float64, metadata={}, __description__="")
+    else:
+        x = K.obj(Series, start=K.obj(cls, serial=K.int("x_start", 8000, 8040)), data=K.array("x_data", (3, 1)), data_type=np.float64, metadata={}, __description__="")
+    K.ensure("default window", K.method(x, "_get_default_moving_window") == window)
